@@ -124,10 +124,10 @@ def format_default(
         case Primitive.error_code, default:
             return f"ErrorCode({default})"
         case Primitive.timedelta_i32, str(default):
-            millis = int(default)
+            millis = int(default, 0)
             return f"i32Timedelta.parse(datetime.timedelta(milliseconds={millis}))"
         case Primitive.timedelta_i64, str(default):
-            millis = int(default)
+            millis = int(default, 0)
             return f"i64Timedelta.parse(datetime.timedelta(milliseconds={millis}))"
         case Primitive.datetime_i64, "-1":
             assert optional
